@@ -550,6 +550,24 @@ def run(cmd, timeout=600, env=None, cwd=None, stdin=None):
     return collections.namedtuple("R", "returncode stdout stderr timed_out")(p.returncode, p.stdout, p.stderr, False)
 
 
+def race_in_code_under_test(stderr):
+    """True if a Go race report names an access whose innermost non-runtime frame is in the code under
+    test (not in the harness / standard library driven by the harness)."""
+    blocks = re.split(r"\n(?=(?:Read|Write|Previous read|Previous write) at )", stderr)
+    found = False
+    for b in blocks:
+        if not re.match(r"(Read|Write|Previous read|Previous write) at ", b):
+            continue
+        frames = re.findall(r"\n  (\S+)\(\)\n      (\S+):\d+", b.split("\n\n")[0])
+        for fn, path in frames:
+            if path.startswith("/usr/lib/go") or "/go/pkg/mod/" in path or "/veriftools/" in path:
+                continue
+            if "buildbuildio/pebbles" in fn and "/harness/" not in path:
+                found = True
+            break
+    return found
+
+
 # ----------------------------------------------------------------------------- findings / evidence
 
 def load_known():
